@@ -502,7 +502,8 @@ pub fn poll_profile(sc: &Sc) -> Vec<u32> {
 }
 
 pub fn scenarios(tier: Tier) -> Vec<Sc> {
-    let thorough = tier == Tier::Thorough;
+    let thorough = tier >= Tier::Thorough;
+    let deep = tier >= Tier::Deep;
     let mut out = vec![];
     for msg in ALL_MSG {
         let roles: Vec<bool> = match msg {
@@ -525,10 +526,21 @@ pub fn scenarios(tier: Tier) -> Vec<Sc> {
                 cutsets.push(vec![c]);
             }
             if n <= 16 || thorough {
-                let lim = if n <= 16 { n } else { 24.min(n) };
+                let lim = if n <= 16 || deep { n } else { 24.min(n) };
                 for c1 in 1..lim {
                     for c2 in c1 + 1..lim {
                         cutsets.push(vec![c1, c2]);
+                    }
+                }
+            }
+            if deep {
+                // three cuts: everywhere in short messages, around the frame header (type, length, first payload bytes) in long ones
+                let lim = n.min(14);
+                for c1 in 1..lim {
+                    for c2 in c1 + 1..lim {
+                        for c3 in c2 + 1..lim {
+                            cutsets.push(vec![c1, c2, c3]);
+                        }
                     }
                 }
             }
@@ -557,11 +569,20 @@ pub fn scenarios(tier: Tier) -> Vec<Sc> {
             }
             // select! start deviations on a mid-frame cut, for two events
             let mid = (n / 2).max(1);
-            for &ev in &[Ev::Nothing, Ev::OwnDatagram] {
+            // deep: every event, and the cut at every third position as well as in the middle
+            let dev_evs: Vec<Ev> = if deep { evs.clone() } else { vec![Ev::Nothing, Ev::OwnDatagram] };
+            let mut dev_cuts: Vec<usize> = vec![mid];
+            if deep {
+                dev_cuts.extend((1..n).step_by(3));
+                dev_cuts.sort();
+                dev_cuts.dedup();
+            }
+            for &ev in &dev_evs {
+              for &cut in &dev_cuts {
                 for sb in [false, true] {
-                    let probe = Sc { msg, role_server: role, cuts: vec![mid], ev, settle_before_event: sb, settle_after_event: sb, sel: vec![] };
+                    let probe = Sc { msg, role_server: role, cuts: vec![cut], ev, settle_before_event: sb, settle_after_event: sb, sel: vec![] };
                     let prof = poll_profile(&probe);
-                    let kmax = prof.len().min(if thorough { 40 } else { 14 });
+                    let kmax = prof.len().min(if deep && cut == mid { 80 } else if thorough { 40 } else { 14 });
                     for (k, &nb) in prof.iter().enumerate().take(kmax) {
                         for start in 1..nb {
                             if !thorough && (k as u32 + start) % 2 == 0 {
@@ -570,13 +591,14 @@ pub fn scenarios(tier: Tier) -> Vec<Sc> {
                             out.push(Sc { sel: vec![(k as u32, start)], ..probe.clone() });
                         }
                     }
-                    if thorough {
+                    if thorough && (cut == mid || deep && cut % 9 == 1) {
                         // two deviations among the first polls
-                        let k2 = prof.len().min(8);
+                        let k2 = prof.len().min(if deep && cut == mid { 14 } else { 8 });
+                        let (s1, s2): (Vec<u32>, Vec<u32>) = if deep && cut == mid { ((1..9).collect(), (1..9).collect()) } else { (vec![1, 4, 7], vec![2, 3, 8]) };
                         for a in 0..k2 {
                             for b in a + 1..k2 {
-                                for sa_ in [1u32, 4, 7] {
-                                    for sb_ in [2u32, 3, 8] {
+                                for &sa_ in &s1 {
+                                    for &sb_ in &s2 {
                                         if sa_ < prof[a] && sb_ < prof[b] {
                                             out.push(Sc { sel: vec![(a as u32, sa_), (b as u32, sb_)], ..probe.clone() });
                                         }
@@ -586,10 +608,11 @@ pub fn scenarios(tier: Tier) -> Vec<Sc> {
                         }
                     }
                 }
+              }
             }
         }
     }
-    out
+    dedup(out, |s| s.to_json().to_string())
 }
 
 pub fn run_check(args: &Args) -> i32 {
